@@ -264,6 +264,57 @@ def runServe (c : Json) : E Json := do
     Json.mkObj [("alive", Json.bool r.1), ("replies", jarr r.2)]
   pure (Json.mkObj [("res", out .head), ("stats", Json.mkObj [("orig", out .original)])])
 
+/-! ### the credentials file of the redis cache -/
+
+def parseCredVal (j : Json) : E CredVal :=
+  match j with
+  | .null => pure .null
+  | .str "collection" => pure .collection
+  | .obj _ => do pure (.scalar (← str j "scalar"))
+  | _ => throw "bad value descriptor of a credentials document"
+
+def parseCredDoc (j : Json) : E CredDoc := do
+  match ← str j "kind" with
+  | "none" => pure .none
+  | "malformed" => pure .malformed
+  | "null" => pure .null
+  | "scalar" => pure .scalar
+  | "seq" => pure .seq
+  | "map" =>
+    let fields ← (← arr j "fields").mapM fun f => do
+      match f with
+      | .arr #[.str k, v] => pure (k, ← parseCredVal v)
+      | _ => throw "bad field descriptor of a credentials document"
+    pure (.map fields)
+  | k => throw s!"credentials document of kind {k} has no model"
+
+/-- what asking for the credentials yields -/
+def credsJson (st : Option Creds) : Json :=
+  match credsGet st with
+  | .ok c => Json.mkObj [("user", jstr c.user), ("pass", jstr c.pass)]
+  | _ => jstr "panic"
+
+/-- the first content is read when the configuration is decoded (a failure there is a start-up failure: nothing to
+reload), every further one by `OnChanged` — called directly, or by the watcher goroutine (`watch`) -/
+def runCreds (c : Json) : E Json := do
+  let docs ← (← arr c "docs").mapM parseCredDoc
+  let watched := strD c "mode" "direct" == "watch"
+  let out (byValue : Bool) : Json :=
+    match docs with
+    | [] => Json.null
+    | first :: rest =>
+      let alive := if watched then [("alive", Json.bool true)] else []
+      match loadCreds byValue first with
+      | .ok st0 =>
+        let trace := rest.foldl (fun (acc : Option Creds × List Json × List Json) d =>
+          let (o, st) := reloadCreds byValue acc.1 d
+          (st, acc.2.1 ++ [credsJson st], acc.2.2 ++ [jstr (cls o)])) (st0, [credsJson st0], [])
+        Json.mkObj ([("start", jstr "ok"), ("states", jarr trace.2.1)] ++ alive ++
+          (if watched then [] else [("reloads", jarr trace.2.2)]))
+      | o => Json.mkObj ([("start", jstr (cls o))] ++ alive)
+  let reasons := docs.map fun d => reason (loadCreds true d)
+  pure (Json.mkObj [("res", out true), ("stats", Json.mkObj [("ptr", out false), ("reasons", jstrs reasons)])])
+
 def parseCls (s : String) : Out Unit :=
   match s with
   | "ok" => .ok ()
@@ -286,6 +337,7 @@ def run (c : Json) : E Json := do
     if strD c "mode" "script" == "script" then runLoop (·.listenerRecover) c else runWatchMaterial c
   | "provider" => runLoop (·.providerRecover) c
   | "serve" => runServe c
+  | "creds" => runCreds c
   | "judge" => runJudge c
   | op => throw s!"loaders: unknown op {op}"
 
